@@ -90,6 +90,16 @@ def removal_check(obs, crate, body, table, search_term, kinds, label, extra_ctx=
                 if g and all(need2 <= set(c) and set(c) <= need2 | set(extra_ctx) for c in g):
                     ok = True
         obs.append(Ob("R08.remove", body.path, "%s: an assignment through an index removes the indexed identifier" % label, ok))
+    # every write found by the search is consumed: the loops around the removals run to exhaustion
+    import order as O
+    early = []
+    rblocks = set(s.bb for s in removes)
+    for lp in O.loops_of_body(body):
+        if rblocks & lp.blocks:
+            normal, extra = lp.exits()
+            early += [body.blocks[x]["tloc"]["line"] for (x, t) in extra]
+    obs.append(Ob("R08.remove", body.path, "%s: every write is looked at (the removal loops run to exhaustion)" % label, not early,
+                  found=("early exit at line(s) %s" % sorted(set(early))) if early else "exhaustion only"))
     # nothing (re)inserted
     ins = [s for s in ss if s.args and s.args[0] == table and s.path.endswith(("::insert", "::extend", "::entry"))]
     obs.append(Ob("R08.remove", body.path, "%s: nothing is added to the candidates after they are built" % label, not ins, found=[s.where for s in ins] or "none"))
